@@ -294,9 +294,9 @@ static int g_nfaults;
 static long g_ledger_errs;
 static long g_munmap_hits;
 
-static void *g_ent_buf;            /* where the library asked for entropy */
-static size_t g_ent_len;
-static int g_ent_calls;
+static __thread void *g_ent_buf;   /* where the library asked for entropy */
+static __thread size_t g_ent_len;
+static __thread int g_ent_calls;
 static unsigned char g_ent_sub[256];
 static size_t g_ent_sublen;
 
@@ -985,6 +985,9 @@ mt_thread (void *arg)
       int idx = (int) (r % (uint64_t) n_mtitems);
       struct mtitem *it = &mtitems[idx];
       int ep = (int) ((r >> 32) % 3);
+      /* control mode 2: only crypt_gensalt(), whose racing writes to its
+         static buffer are bounded and cannot crash the process */
+      if (mt_static_api == 2 && it->kind == 0) continue;
       char *res = 0;
       char *tofree = 0;
       g_inlib = 1;
